@@ -1863,9 +1863,11 @@ void DTDScanner::scanEntityDecl()
         //
         //  Set the declaration location. The parameter indicates whether its
         //  declared in the content/internal subset, so we know whether or not
-        //  its in the external subset.
+        //  its in the external subset. A declaration that comes out of the
+        //  replacement text of a parameter entity (internal or external) is an
+        //  external markup declaration too (XML 1.0, 2.9 and WFC: Entity Declared).
         //
-        entityDecl->setDeclaredInIntSubset(fInternalSubset);
+        entityDecl->setDeclaredInIntSubset(fInternalSubset && !isReadingExternalEntity());
 
         // Add it to the appropriate entity decl pool
         if (isPEDecl)
